@@ -275,7 +275,8 @@ class Controlled(QuantumGate):
         self.draw_as_controlled = True
         array = numpy.zeros((4, 4), dtype=complex)
         array[:2, :2] = numpy.eye(2)
-        array[2:, 2:] = controlled.array
+        array[2:, 2:] = controlled.array.conjugate().T\
+            if controlled.is_dagger else controlled.array
         if distance != 0:
             raise NotImplementedError
         name = "C" + controlled.name
